@@ -62,9 +62,9 @@ PROPS = {
         "fall through only on the five lookup-type exception classes (real class hierarchy "
         "axiomatised) and to propagate anything else; every schema additionally proves that each "
         "reached expression is evaluated exactly once and unreached ones never.",
-        S_TALES + TAL_BASIC + S_INTERP + S_MORE + [FRESH],
+        S_TALES + TAL_BASIC + S_INTERP + S_MORE + [FRESH, K("utils.py::lookup_attr")],
         ["the Python sub-grammar (comprehensions, lambdas) and NameLookupRewriteVisitor scoping",
-         "attribute->item fallback (lookup_attr), ExpressionParser prefix dispatch (K1, pending)",
+         "tales.transform_attribute's rewrite of a.b into lookup_attr(a, 'b') (lookup_attr itself is under contract); ExpressionParser prefix dispatch",
          "import:/string:/structure: prefixes"]),
     "C05": k3prop(
         "Emitted save/assign/restore brackets of tal:define and tal:repeat are proved to restore the "
